@@ -780,7 +780,11 @@ func main() {
 	phaseT("pairs")
 	c.guard("primitive", "primitives", c.checkPrimitives)
 	bpar, bseq := c.boundaryCases()
-	par.Go(len(bpar), func(i int) { c.guard("boundary", bpar[i].name, func() { c.runBoundary(bpar[i]) }) })
+	var bjobs []func()
+	for _, bc := range bpar {
+		bjobs = append(bjobs, c.boundaryJobs(bc)...)
+	}
+	par.Go(len(bjobs), func(i int) { c.guard("boundary", "boundary-length job", bjobs[i]) })
 	for _, bc := range bseq {
 		bc := bc
 		c.guard("boundary", bc.name, func() { c.runBoundary(bc) })
